@@ -206,3 +206,105 @@ def csa_gen(rng, tier):
     ann = [Annotated[int, "m"], Annotated[bool, "x", "y"], Annotated[list[int], 1], Array[int], Array[str], list[int], dict[str, int]]
     for _ in range(300 if tier == "quick" else 3000):
         yield {"annotated_type": rng.choice(ann), "other_type": rng.choice(_pool()), "memo": memo}
+
+
+# ---- _handle_generic_types: Annotated on both / one side, then parametrised generics (covariant) ---------------------------
+get_origin_opt = Contract("typing::get_origin", params={"tp": TypeV}, returns=TOpt(TObj), trusted=True, pure=True,
+                          note="typing.get_origin: the unsubscripted form of a parametrised type, None otherwise")
+compare_annotated = Contract(f"{F}::_compare_annotated_types", params={"incoming_type": TypeV, "required_type": TypeV, "memo": TObj},
+                             returns=TBool, trusted=True, pure=True,
+                             note="both sides Annotated: primary types, then the Array element types (bounded check of C16)")
+compare_origins = Contract(f"{F}::_compare_generic_type_origins", params={"incoming_origin": TObj, "required_origin": TObj},
+                           returns=TBool, trusted=True, pure=True, note="issubclass on the origins of two generics")
+
+
+def _origin(S, t):
+    """`get_origin(t) or t` - the origin if there is a (truthy) one, else the type itself."""
+    if S.symbolic:
+        go = S.uf("fn:get_origin", TOpt(TObj), t)
+        return S.ite(S.is_none(go), lambda: t.tid, lambda: S.some(go))
+    from typing import get_origin
+    return get_origin(t) or t
+
+
+def _truthy(S, x):
+    if S.symbolic:
+        return S.and_(S.not_(S.eq(x, Val(TObj, TObj.lit(None)))), lambda: S.uf("spec:truthy", TBool, x))
+    return bool(x)
+
+
+def _is_ann(S, x):
+    if S.symbolic:
+        return S.eq(x, _g(S, "Annotated"))
+    from typing import Annotated
+    return x is Annotated
+
+
+def _hg_parts(S, a):
+    io, ro = _origin(S, a.incoming_type), _origin(S, a.required_type)
+    return io, ro, _is_ann(S, io), _is_ann(S, ro)
+
+
+def _hg_raises(S, a):
+    io, ro, ai, ar = _hg_parts(S, a)
+    return S.or_(S.and_(ai, lambda: S.not_(ar), lambda: S.len(_members(S, a.incoming_type)) == 0),
+                 lambda: S.and_(ar, lambda: S.not_(ai), lambda: S.len(_members(S, a.required_type)) == 0))
+
+
+def _hg_ensures(S, a, r, post):
+    io, ro, ai, ar = _hg_parts(S, a)
+    mi, mr = (lambda: _members(S, a.incoming_type)), (lambda: _members(S, a.required_type))
+    inc, req = _as_obj(S, a.incoming_type), _as_obj(S, a.required_type)
+    val = (lambda: S.some(r)) if S.symbolic else (lambda: bool(r))
+    decided = lambda: S.not_(S.is_none(r))  # noqa: E731
+    generic = lambda: S.and_(S.not_(ai), lambda: S.not_(ar), lambda: _truthy(S, io), lambda: _truthy(S, ro))  # noqa: E731
+    if S.symbolic:
+        both = S.uf("fn:_compare_annotated_types", TBool, a.incoming_type, a.required_type, a.memo)
+        origins_ok = S.uf("fn:_compare_generic_type_origins", TBool, io, ro)
+    else:
+        import warnings
+        from pipefunc.typing import _compare_annotated_types, _compare_generic_type_origins
+        with warnings.catch_warnings():
+            warnings.simplefilter("ignore")
+            both = (lambda: _compare_annotated_types(a.incoming_type, a.required_type, a.memo))
+            origins_ok = (lambda: _compare_generic_type_origins(io, ro))
+    call = (lambda f: f) if S.symbolic else (lambda f: f())
+    return {
+        "Annotated on both sides: their own comparison": S.implies(S.and_(ai, lambda: ar), lambda: S.and_(
+            decided(), lambda: S.iff(val(), call(both)))),
+        "Annotated source only: its primary type against the target": S.implies(S.and_(ai, lambda: S.not_(ar)), lambda: S.and_(
+            decided(), lambda: S.iff(val(), _compat(S, mi()[0], req, a.memo)))),
+        "Annotated target only: the source against its primary type (direction kept)": S.implies(
+            S.and_(ar, lambda: S.not_(ai)), lambda: S.and_(decided(), lambda: S.iff(val(), _compat(S, inc, mr()[0], a.memo)))),
+        "two generics: origins must agree, then covariant argument by argument (unparametrised: compatible)": S.implies(
+            generic(), lambda: S.and_(decided(), lambda: S.iff(val(), S.and_(call(origins_ok), lambda: S.or_(
+                S.len(mr()) == 0, S.len(mi()) == 0, lambda: S.forall(0, S.min(S.len(mi()), S.len(mr())),
+                                                                    lambda i: _compat(S, mi()[i], mr()[i], a.memo))))))),
+        "otherwise no verdict here (None)": S.implies(
+            S.and_(S.not_(ai), lambda: S.not_(ar), lambda: S.not_(S.and_(_truthy(S, io), lambda: _truthy(S, ro)))),
+            lambda: S.is_none(r)),
+    }
+
+
+handle_generic_types = Contract(
+    f"{F}::_handle_generic_types", params={"incoming_type": TypeV, "required_type": TypeV, "memo": TObj}, returns=TOpt(TBool),
+    raises=[("ValueError", _hg_raises)], ensures=_hg_ensures, locals_={"Annotated": TObj},
+)
+GENERIC = [is_type_compatible, get_origin_opt, get_args_c, compare_annotated, compare_single_annotated, compare_origins,
+           compare_generic_type_args, handle_generic_types]
+
+
+def hg_gen(rng, tier):
+    from typing import Annotated
+    from pipefunc.typing import Array, TypeCheckMemo
+    memo = TypeCheckMemo(globals={}, locals={})
+    pool = _pool() + [Annotated[int, "m"], Annotated[bool, "x"], Array[int], Array[bool], list[str], dict[str, bool], tuple[int, int]]
+    for _ in range(500 if tier == "quick" else 5000):
+        yield {"incoming_type": rng.choice(pool), "required_type": rng.choice(pool), "memo": memo}
+
+
+def hg_call(fn, a):
+    import warnings
+    with warnings.catch_warnings():
+        warnings.simplefilter("ignore")
+        return fn(a["incoming_type"], a["required_type"], a["memo"])
